@@ -18,8 +18,8 @@ use sylvia::cw_std::{
 };
 
 pub enum Chain {
-    E(SvAppE),
-    C(SvAppC),
+    E(Box<SvAppE>),
+    C(Box<SvAppC>),
 }
 
 macro_rules! on_app {
@@ -95,6 +95,9 @@ pub struct OpRecord {
 }
 
 pub struct World<'r> {
+    /// codes stored through sylvia's generated `CodeId::store_code` (they borrow the boxed app
+    /// below; declared first so that they are dropped first)
+    pub pcodes: Vec<Option<Box<dyn PCode<'static> + 'static>>>,
     pub chain: Chain,
     pub reg: &'r Reg,
     pub code_ids: Vec<u64>,
@@ -140,7 +143,7 @@ impl<'r> World<'r> {
                         }
                     }
                 });
-            Chain::C(sylvia::multitest::App::new(app))
+            Chain::C(Box::new(sylvia::multitest::App::new(app)))
         } else {
             let app: AppE = AppBuilder::new().build(|router, _api, storage| {
                 for (a, c) in &accts {
@@ -149,9 +152,10 @@ impl<'r> World<'r> {
                     }
                 }
             });
-            Chain::E(sylvia::multitest::App::new(app))
+            Chain::E(Box::new(sylvia::multitest::App::new(app)))
         };
         World {
+            pcodes: vec![],
             chain,
             reg,
             code_ids: vec![],
@@ -191,7 +195,80 @@ impl<'r> World<'r> {
         };
         self.code_ids.push(id);
         self.codes.push(code.clone());
+        self.pcodes.push(None);
         Ok(id)
+    }
+
+    /// the boxed app with an unbounded lifetime; only handed to proxies that are dropped
+    /// before the app (see field order)
+    fn app_static(&self) -> Option<&'static SvAppE> {
+        match &self.chain {
+            Chain::E(b) => Some(unsafe { &*(&**b as *const SvAppE) }),
+            Chain::C(_) => None,
+        }
+    }
+
+    /// store through the generated multitest `CodeId::store_code` (no link in between)
+    pub fn store_via_proxy(&mut self, code: &Code) -> Result<u64, String> {
+        let e: &Entry = self.reg.get(&code.cid).ok_or_else(|| format!("unknown cid {}", code.cid))?;
+        let p = e.proxy.as_ref().ok_or("program has no proxy glue")?;
+        let app = self.app_static().ok_or("proxies are driven on the Empty chain only")?;
+        let pc = (p.store)(app);
+        let id = pc.code_id();
+        self.code_ids.push(id);
+        self.codes.push(code.clone());
+        self.pcodes.push(Some(pc));
+        Ok(id)
+    }
+
+    /// one proxy call; panics of the proxy are caught and reported as such
+    pub fn proxy_apply(&mut self, t: &Twin) -> Outcome {
+        let Some(app) = self.app_static() else { return Outcome::Panic("harness: no app".into()) };
+        let sender = Addr::unchecked(t.sender.clone());
+        let args = serde_json::to_vec(&t.args).unwrap();
+        let funds = t.funds.clone();
+        let out = if t.hid == "instantiate" {
+            let Some(Some(pc)) = self.pcodes.get(t.code) else { return Outcome::Panic("harness: code not proxy-stored".into()) };
+            let salt = t.salt.as_ref().map(|d| d.0.clone());
+            let opts = InstOpts { label: t.label.as_deref(), admin: t.admin.as_deref(), funds: funds.as_deref(), salt: salt.as_deref() };
+            guarded(|| pc.instantiate(&args, &opts, &sender))
+        } else {
+            let Some(c) = self.contracts.get(t.slot) else { return Outcome::Err(json!({"class": "harness", "text": "no such slot"})) };
+            let Some(e) = self.reg.get(&c.cid) else { return Outcome::Panic("harness: unknown cid".into()) };
+            let Some(p) = e.proxy.as_ref() else { return Outcome::Panic("harness: no proxy glue".into()) };
+            let addr = Addr::unchecked(c.addr.clone());
+            let new_code = self.code_ids.get(t.code).copied().unwrap_or(9999);
+            let call = p.call;
+            guarded(|| call(app, &addr, &t.hid, &args, funds.as_deref(), &sender, new_code))
+        };
+        match out {
+            Err(p) => Outcome::Panic(p),
+            Ok(POut::Addr(a)) => {
+                let cid = self.codes.get(t.code).map(|c| c.cid.clone()).unwrap_or_default();
+                if !self.contracts.iter().any(|c| c.addr == a) {
+                    self.contracts.push(ContractInfo { addr: a.clone(), cid, code: t.code });
+                }
+                Outcome::Addr(a, Value::Null)
+            }
+            Ok(POut::Resp(v)) => {
+                if t.hid.starts_with("migrate:") {
+                    let new_cid = self.codes.get(t.code).map(|c| c.cid.clone());
+                    if let (Some(c), Some(n)) = (self.contracts.get_mut(t.slot), new_cid) {
+                        c.cid = n;
+                        c.code = t.code;
+                    }
+                }
+                Outcome::Ok(v)
+            }
+            Ok(POut::Val(v)) => Outcome::Val(v),
+            Ok(POut::Err(c)) => Outcome::Err(match c {
+                ErrClass::Scripted(c) => json!({"class": "scripted", "code": c}),
+                ErrClass::Own(t) => json!({"class": "own", "text": t}),
+                ErrClass::Std(t) => json!({"class": "std", "text": t}),
+                ErrClass::Other(t) => json!({"class": "other", "text": t}),
+            }),
+            Ok(POut::Panic(p)) => Outcome::Panic(p),
+        }
     }
 
     pub fn cid_of(&self, addr: &str) -> Option<&str> {
@@ -241,12 +318,16 @@ impl<'r> World<'r> {
     }
 
     fn discover(&mut self, events: &[Ev]) {
+        self.discover_from(events, 0)
+    }
+
+    pub fn discover_from(&mut self, events: &[Ev], w: u8) {
         for ev in events {
             if let Ev::Deliver {
-                addr, cid, entry, ..
+                addr, cid, entry, world, ..
             } = ev
             {
-                if *entry == "instantiate" && !self.contracts.iter().any(|c| &c.addr == addr) {
+                if *world == w && *entry == "instantiate" && !self.contracts.iter().any(|c| &c.addr == addr) {
                     self.contracts.push(ContractInfo {
                         addr: addr.clone(),
                         cid: cid.clone(),
